@@ -169,6 +169,14 @@ func RegisterHandler(name string, h func(c *fakemysql.ConnInfo, sql string) *fak
 	handlers[name] = h
 }
 
+var childCommands = map[string]func(p *Proxy, arg string) string{}
+
+// RegisterChildCommand names a function the parent can invoke in the child through
+// Child.Command (e.g. to read a counter of the real Manager through an inject accessor).
+func RegisterChildCommand(name string, h func(p *Proxy, arg string) string) {
+	childCommands[name] = h
+}
+
 const childEnv = "VERIF_E2ERIG_CHILD"
 
 // MaybeChild must be called first in main (after RegisterHandler calls): in a child
@@ -207,7 +215,19 @@ func MaybeChild() {
 		os.Exit(3)
 	}
 	fmt.Println("READY " + p.Addr)
-	io.Copy(io.Discard, os.Stdin) // parent closes stdin (or dies) -> shut down
+	// serve control commands until the parent closes stdin (or dies) -> shut down
+	in := bufio.NewScanner(os.Stdin)
+	for in.Scan() {
+		name, arg := in.Text(), ""
+		if i := strings.IndexByte(name, ' '); i >= 0 {
+			name, arg = name[:i], name[i+1:]
+		}
+		if h := childCommands[name]; h != nil {
+			fmt.Println("R " + h(p, arg))
+		} else {
+			fmt.Println("R ERR unknown command " + name)
+		}
+	}
 	p.Close()
 	for _, f := range fakes {
 		f.Close()
@@ -224,6 +244,9 @@ type Child struct {
 	mu     sync.Mutex
 	stderr bytes.Buffer
 	state  *os.ProcessState
+
+	replies chan string
+	cmdMu   sync.Mutex
 }
 
 type lockedWriter struct {
@@ -264,7 +287,8 @@ func StartChild(spec ChildSpec) (*Child, error) {
 	if err := cmd.Start(); err != nil {
 		return nil, err
 	}
-	lines := make(chan string, 1)
+	lines := make(chan string, 16)
+	c.replies = make(chan string, 16)
 	go func() {
 		sc := bufio.NewScanner(out)
 		first := true
@@ -272,6 +296,11 @@ func StartChild(spec ChildSpec) (*Child, error) {
 			if first {
 				lines <- sc.Text()
 				first = false
+			} else if strings.HasPrefix(sc.Text(), "R ") {
+				select {
+				case c.replies <- strings.TrimPrefix(sc.Text(), "R "):
+				default:
+				}
 			}
 		}
 		if first {
@@ -295,6 +324,27 @@ func StartChild(spec ChildSpec) (*Child, error) {
 		return nil, fmt.Errorf("child start timed out")
 	}
 	return c, nil
+}
+
+// Command sends one line ("name arg") to the child and returns the reply of the handler
+// registered there with RegisterChildCommand.
+func (c *Child) Command(line string) (string, error) {
+	c.cmdMu.Lock()
+	defer c.cmdMu.Unlock()
+	for len(c.replies) > 0 {
+		<-c.replies
+	}
+	if _, err := io.WriteString(c.stdin, line+"\n"); err != nil {
+		return "", err
+	}
+	select {
+	case r := <-c.replies:
+		return r, nil
+	case <-c.exited:
+		return "", fmt.Errorf("child exited")
+	case <-time.After(30 * time.Second):
+		return "", fmt.Errorf("no reply from child to %q", line)
+	}
 }
 
 // Alive reports whether the child process is still running.
